@@ -137,4 +137,27 @@ CHECKS["C19"] = {
     "text": "Requests (single text, list, search; duplicates and empty string) x max_batch_size 1..3 x cache off / in-memory / filesystem x key generators (optionally pre-warmed) x batching on/off, a second round of requests on the warm state, and two indexes with different models sharing a cache: every request returns exactly model(text) in input order, every started request completes (deadlock, step horizon and a CPU watchdog are failure classes), request tables are empty at the end. Quick: 6 837 configurations fully enumerated; thorough: all configurations with <=4 requests exhaustive, 5-request ones up to a reported deviation bound.",
     "note": "Trusted: the virtual loop (ready queue FIFO and never permuted; timers and external completions are explorer choices; replays must reproduce identical enabled-choice lists), fake embedding provider registered through the library registry; model failures/cancellations and the redis store are not covered.",
 }
+
+# families added after the first version of the table (rounds 2 and 3 of seeding); appended to the texts above
+_EXTRA = {
+    "C01": "Also: one shipped rail flow configured twice with different parameters (content safety check input $model=..., stub action), Colang 2.x worlds on the shipped `self check input` rail, a 2.x rail configured in config.yml with / without the user's own `import guardrails`, passthrough mode.",
+    "C02": "Also: conversations continued through `state` with per-turn option forms, `bot $variable` messages, the 2.x llm-library world, two interaction loops uttering LLM text in one turn, Colang 1.0 parameterised output rails (custom exception names), 2.x worlds on the shipped `self check output` rail.",
+    "C03": "Also: an alphabet of exception classes incl. message-less ones, actions registered as async / sync / wrapper returning a coroutine / class with sync or async run, faults in two turns, fresh instance for the faulted turn, a parameterised rail set with a rejection before the faulted turn, 2.x mains with a fallback message after a failed `bot say` and with the action result uttered, the shipped 2.x jailbreak-heuristics rail.",
+    "C04": "Also: patterns taken from variables, action progress events, reserved key / parameter names (return_value, activated, source_flow_instance_uid) at top level and nested, flow-name events of flows with parameters, independence of the declared priority (0.0, 0.5, 1.0, variable).",
+    "C05": "Also: priority declared in an awaiting wrapper / twice in one flow, competitors reaching their action through or-groups or sub-flows (score chains of different length), specificity inside dict-valued parameters, events aimed at own / shared running action instances (Stop, Change), parent in one loop with a child competing in another loop (all specificity orders and start orders).",
+    "C06": "Also: templates T5 (shared action held in a scope), T6 (same flow activated twice by one activator), T7 (parent and child wait for the same event), action Started events arriving late or repeatedly, second activator finishing or aborting.",
+    "C07": "Also: member flows that fail (cancel forms), loop forms (statement executed again, when/else in a loop), and the same group statement completing in three flows on one event (x3 forms).",
+    "C08": "Also: call layouts with named arguments before / between positional ones, shapes omitting a parameter without default (must not take another parameter's value), string values containing `$word`, 17 parameter names incl. the interpreter's bookkeeping names, mutable defaults changed in place, interpreter exceptions during a call.",
+    "C09": "The invariant is also evaluated on every state reached after a save/restore or ageing cut (C11's lock-step explorer as host) and includes: no running flow below a finished instance of another flow.",
+    "C10": "Also: part R - stationary programs (activated flows with and without the start_new_flow_instance label) driven with the same period of events for 10-14 rounds: cost per event within the budget and not growing from round to round; part X - an interpreter error injected at a seam with plain / faulty / twice-faulty ColangError watchers (process_events must not raise); arity and invalid-event fault kinds.",
+    "C11": "Hosts: variable zoo (sets, regexes, nested and mixed-key containers, references), C06 hierarchy programs (incl. the event that ends the second activator), C07 group programs.",
+    "C12": "Also: when groups with 3-4 branches of every length combination (v1 and v2, three contexts) and a second compilation of every parse result (two runtimes on one RailsConfig).",
+    "C15": "Also: a rails + dialog-action world in which the arguments of every action call are compared, Colang 2.x conversation sets with LLM-generated flows that outlive the turn, requests awaited from one task, streaming requests in the schedule explorer (chunks of every request equal its isolated run).",
+    "C17": "Corpus of 90 hostile outputs incl. containers whose keys / nested members cannot be stored in the state and bot intents naming non-string context variables.",
+    "C19": "Also: library-global containers are reset per execution (GlobalsGuard); two indexes with different embedding models over one cache configuration, with two and three requests.",
+    "C20": "Thread alphabet includes a request form carrying `context`; ids with composite tokens (`/..`, `/../..`, sibling directories sharing the root's name as prefix).",
+}
+for _k, _v in _EXTRA.items():
+    CHECKS[_k]["text"] = CHECKS[_k]["text"].rstrip() + " " + _v
+
 NOT_APPLICABLE = {}
